@@ -1352,6 +1352,20 @@ func (m *Machine) selectOp(instr *ssa.Select, fr *frame) value {
 		}
 	}
 	if chosen < 0 && instr.Blocking {
+		// nothing else can happen: a pending timer fires
+		for i, st := range instr.States {
+			ch, _ := fr.get(st.Chan).(*chanV)
+			if ch != nil && ch.timer && !ch.fired && st.Dir == types.RecvOnly {
+				ch.fired = true
+				m.clock += 1_000_000_000
+				recv = m.zero(st.Chan.Type().Underlying().(*types.Chan).Elem())
+				recvOk = true
+				chosen = i
+				break
+			}
+		}
+	}
+	if chosen < 0 && instr.Blocking {
 		panic(pathAbort{"unsupported", "select would block (goroutine scheduling is not modelled)"})
 	}
 	r := tuple{m.intTerm(chosen), m.c.Bool(recvOk)}
